@@ -20,7 +20,7 @@ MANIFEST = {
 
 RULE = ("per case one generated package: 50% 'sched' (1-3 XGo + 0-2 Go files, 4-12 consts/vars/funcs/Go-file types with random cross references and "
         "0-3 injected errors; model-predicted; file names with colliding stems, case-only differences, extension-sensitive order), 40% 'rich' (adds struct types referring across XGo/Go files, methods, overloads in both styles, init funcs, "
-        "normal .gox classes, spx-like project/work classes of 2 kinds, 3-5 independent errors in a quarter of them: undefined names, a type mismatch and every kind of redeclaration — func/type/const/var/method/import name/cross-kind — within one file and across XGo, Go and class files), 10% directories with 2-3 non-main packages, "
+        "normal .gox classes, script-style files (statements only, first at byte 0), empty and comment-only files, a random source-dir/RelativeBase configuration, spx-like project/work classes of 2 kinds, 3-5 independent errors in a quarter of them: undefined names, a type mismatch and every kind of redeclaration — func/type/const/var/method/import name/cross-kind — within one file and across XGo, Go and class files), 10% directories with 2-3 non-main packages, "
         "+ 3 regression shapes + cl/_testspx; each compiled 20x (thorough 30x) in-process and once in each of 5 (8) fresh processes, file listing shuffled every time; "
         "non-trivial = sched package with >= 2 files (distinct by content)")
 
